@@ -2,6 +2,7 @@
 package main
 
 import (
+	"bufio"
 	"bytes"
 	"fmt"
 	"io"
@@ -34,12 +35,37 @@ type nonSeeker struct{ r io.Reader }
 
 func (n nonSeeker) Read(p []byte) (int, error) { return n.r.Read(p) }
 
-// sources returns fresh readers over b+sentinel with different chunking behaviours.
+// chunked delivers its parts one after the other, never more than the rest of the current part per Read
+// (a socket on which each frame arrives in its own packet).
+type chunked struct{ parts [][]byte }
+
+func (c *chunked) Read(p []byte) (int, error) {
+	for len(c.parts) > 0 && len(c.parts[0]) == 0 {
+		c.parts = c.parts[1:]
+	}
+	if len(c.parts) == 0 {
+		return 0, io.EOF
+	}
+	n := copy(p, c.parts[0])
+	c.parts[0] = c.parts[0][n:]
+	return n, nil
+}
+
+// sources returns fresh readers over b+sentinel with different chunking behaviours. The second result
+// drains the source and returns what was left; it then OVERWRITES the memory the source was reading
+// from, so that a decoded value that still aliases the source (instead of owning a copy) shows up in
+// the comparisons, which all come after it. wantRest is what must be left.
 func sources(b []byte) map[string]func() (io.Reader, func() []byte) {
+	scribble := func(x []byte) {
+		for i := range x {
+			x[i] = 0xEE
+		}
+	}
 	mk := func(wrap func(*bytes.Reader) io.Reader) func() (io.Reader, func() []byte) {
 		return func() (io.Reader, func() []byte) {
-			br := bytes.NewReader(append(append([]byte{}, b...), sentinel...))
-			return wrap(br), func() []byte { rest, _ := io.ReadAll(br); return rest }
+			back := append(append([]byte{}, b...), sentinel...)
+			br := bytes.NewReader(back)
+			return wrap(br), func() []byte { rest, _ := io.ReadAll(br); scribble(back); return rest }
 		}
 	}
 	return map[string]func() (io.Reader, func() []byte){
@@ -49,8 +75,33 @@ func sources(b []byte) map[string]func() (io.Reader, func() []byte) {
 		"half":     mk(func(r *bytes.Reader) io.Reader { return iotest.HalfReader(r) }),
 		// a *bytes.Buffer that holds more than the frame: compressors special-case this source type
 		"buffer": func() (io.Reader, func() []byte) {
-			bb := bytes.NewBuffer(append(append([]byte{}, b...), sentinel...))
-			return bb, func() []byte { return append([]byte{}, bb.Bytes()...) }
+			back := append(append([]byte{}, b...), sentinel...)
+			bb := bytes.NewBuffer(back)
+			return bb, func() []byte { rest := append([]byte{}, bb.Bytes()...); scribble(back); return rest }
+		},
+		// a *bytes.Buffer that holds exactly the frame (the last frame of a stream): the sentinel is appended
+		// to the buffer only after the decode, so every byte of the frame must have been consumed by then
+		"buffer-exact": func() (io.Reader, func() []byte) {
+			back := append(make([]byte, 0, len(b)+len(sentinel)), b...)
+			bb := bytes.NewBuffer(back)
+			return bb, func() []byte {
+				bb.Write(sentinel)
+				rest := append([]byte{}, bb.Bytes()...)
+				scribble(back[:cap(back)])
+				return rest
+			}
+		},
+		// a *bufio.Reader over a connection that delivers the frame and what follows in separate reads:
+		// draining the rest makes bufio refill (and overwrite) its internal buffer
+		"bufio": func() (io.Reader, func() []byte) {
+			br := bufio.NewReader(&chunked{parts: [][]byte{append([]byte{}, b...), append(append([]byte{}, sentinel...), bytes.Repeat([]byte{0xEE}, 8192)...)}})
+			return br, func() []byte {
+				rest, _ := io.ReadAll(br)
+				if len(rest) >= len(sentinel) && len(rest) == len(sentinel)+8192 {
+					return rest[:len(sentinel)]
+				}
+				return rest
+			}
 		},
 	}
 }
@@ -113,13 +164,15 @@ func main() {
 					fail("decode-error", "DecodeFrame/"+sname, "decodes from a contiguous source but not from a %s source: %v", sname, err)
 					continue
 				}
-				if d := gen.Equal(orig, got, fcheck.Ignore); d != "" && sname != "seekable" {
-					fail("mismatch", "DecodeFrame/"+sname, "differs at %s", d)
-				}
 				if x := rest(); !bytes.Equal(x, sentinel) {
 					fail("consumption", "DecodeFrame/"+sname, "%d bytes left instead of the sentinel", len(x))
 				}
-				ref = got
+				if d := gen.Equal(orig, got, fcheck.Ignore); d != "" {
+					fail("mismatch", "DecodeFrame/"+sname, "differs at %s (compared after the source's memory was overwritten)", d)
+				}
+				if ref == nil {
+					ref = got
+				}
 				// path 2: DecodeRawFrame + ConvertFromRawFrame
 				r, rest = mk()
 				rf, err := raw.DecodeRawFrame(r)
@@ -147,25 +200,27 @@ func main() {
 					continue
 				}
 				b, err := raw.DecodeBody(h, r)
+				x3 := rest()
 				if err != nil {
 					fail("decode-error", "DecodeBody/"+sname, "%v", err)
 				} else if d := gen.Equal(ref, &frame.Frame{Header: h, Body: b}, fcheck.Ignore); d != "" {
 					fail("mismatch", "DecodeHeader+DecodeBody/"+sname, "differs at %s", d)
 				}
-				if x := rest(); !bytes.Equal(x, sentinel) {
-					fail("consumption", "DecodeHeader+DecodeBody/"+sname, "%d bytes left instead of the sentinel", len(x))
+				if !bytes.Equal(x3, sentinel) {
+					fail("consumption", "DecodeHeader+DecodeBody/"+sname, "%d bytes left instead of the sentinel", len(x3))
 				}
 				// path 4: DecodeHeader + DecodeRawBody
 				r, rest = mk()
 				h, _ = raw.DecodeHeader(r)
 				rb, err := raw.DecodeRawBody(h, r)
+				x4 := rest()
 				if err != nil {
 					fail("decode-error", "DecodeRawBody/"+sname, "%v", err)
 				} else if !bytes.Equal(rb, wire[hl:]) {
-					fail("raw-body", "DecodeRawBody/"+sname, "raw body differs from the bytes after the header")
+					fail("raw-body", "DecodeRawBody/"+sname, "raw body differs from the bytes after the header (compared after the source's memory was overwritten)")
 				}
-				if x := rest(); !bytes.Equal(x, sentinel) {
-					fail("consumption", "DecodeRawBody/"+sname, "%d bytes left instead of the sentinel", len(x))
+				if !bytes.Equal(x4, sentinel) {
+					fail("consumption", "DecodeRawBody/"+sname, "%d bytes left instead of the sentinel", len(x4))
 				}
 				// path 5: DecodeHeader + DiscardBody
 				r, rest = mk()
@@ -261,14 +316,14 @@ func main() {
 	}
 	reenc += rst.Cases
 	c.Set("reencode_mutants", rst.Cases)
-	c.Sample(map[string]interface{}{"note": "each frame goes through 7 paths x 5 source kinds (seekable bytes.Reader, plain, one-byte and half readers, a bytes.Buffer holding trailing bytes)"})
+	c.Sample(map[string]interface{}{"note": "each frame goes through 7 paths x 7 source kinds (seekable bytes.Reader, plain, one-byte and half readers, a bytes.Buffer holding trailing bytes, a bytes.Buffer holding exactly the frame, a bufio.Reader over a chunked connection); the memory of the source is overwritten before the results are compared"})
 	c.Set("states", n)
 	c.Set("transitions", evals*5+reenc)
 	c.Set("traces_validated_against_impl", validated+reenc)
 	c.Set("frames_generated", n)
 	c.Set("reencoded", reenc)
 	c.Set("bound", map[string]interface{}{"field_deviations": o.D, "type_depth": o.TypeDepth})
-	c.Set("rule", "every generated frame x compression through DecodeFrame, DecodeRawFrame+ConvertFromRawFrame, DecodeHeader+DecodeBody, +DecodeRawBody, +DiscardBody (5 kinds of source), ConvertToRawFrame+EncodeRawFrame (also delayed past the next conversion), EncodeHeader+EncodeBody; re-encode clause (decode -> encode -> decode) on every frame")
+	c.Set("rule", "every generated frame x compression through DecodeFrame, DecodeRawFrame+ConvertFromRawFrame, DecodeHeader+DecodeBody, +DecodeRawBody, +DiscardBody (7 kinds of source, source memory overwritten before comparing), ConvertToRawFrame+EncodeRawFrame (also delayed past the next conversion), EncodeHeader+EncodeBody; re-encode clause (decode -> encode -> decode) on every frame")
 	c.Finish()
 }
 
